@@ -581,10 +581,15 @@ def warp_member(cfg, a=0, ln=24000):
             "poison": 0, "poison_seed": 0}
 
 
-def gen_warp_group(rng, mat, stats):
+def gen_warp_group(rng, mat, stats, comeback=False):
     """three or four decoders created in one process with frequency-warp configurations drawn with replacement (so the same
     warp comes back after another one or after none): each must equal its solo run in a fresh process"""
-    cfgs = [rng.choice(WARP_POOL) for _ in range(rng.range(3, 4))]
+    if comeback:
+        # the same warp again after a decoder without one (a parameter string that is parsed a second time)
+        w = rng.choice(["warp_il", "warp_il2", "warp_af", "warp_pw"])
+        cfgs = [w, "batchcmn", w] + ([rng.choice(WARP_POOL)] if rng.chance(0.5) else [])
+    else:
+        cfgs = [rng.choice(WARP_POOL) for _ in range(rng.range(3, 4))]
     if len(set(cfgs)) == 1:
         cfgs[1] = "batchcmn" if cfgs[0] != "batchcmn" else "warp_il"
     for x in cfgs:
@@ -829,7 +834,7 @@ def check(c):
                 break
     ngroup = {"quick": 2, "thorough": 40}[c.tier] if ok and not corpus_failed else 0
     for i in range(ngroup):
-        grp = gen_warp_group(rng, mat, stats)
+        grp = gen_warp_group(rng, mat, stats, comeback=(i % 2 == 0))
         irng = rng.fork()
         seed_state = irng.s
         seq = rng.chance(0.5)
